@@ -12,7 +12,7 @@ import (
 
 func (e *Engine) newFnCtx(key string, fn *ssa.Function, c *FuncContract) *FnCtx {
 	fc := &FnCtx{e: e, fn: fn, c: c, key: key, short: shortKey(key), declSet: map[string]bool{}, base: map[string]Term{}, baseSort: map[string]string{},
-		modset: map[string][]Term{}, modpred: map[string][]string{}, modAll: map[string]bool{}, trusted: map[string]bool{}, params: map[string]CVal{}, counter: map[string]int{}, atCallSeen: map[*AtCall]bool{},
+		modset: map[string][]Term{}, modpred: map[string][]string{}, modAll: map[string]bool{}, trusted: map[string]bool{}, params: map[string]CVal{}, counter: map[string]int{}, atCallSeen: map[*AtCall]bool{}, cellClosure: map[string]*Closure{},
 		callees: map[string]bool{}, derived: map[string]bool{}}
 	if c != nil {
 		fc.props = c.Props
@@ -144,6 +144,15 @@ func (e *Engine) VerifyFunc(c *FuncContract) *FnCtx {
 		}
 		fc.fact(t.S)
 		reqs = append(reqs, t.S)
+	}
+	// captures: facts about the captured variables, established where the closure is created
+	for _, cl := range c.Captures {
+		t, err := env.evalBool(cl.Expr)
+		if err != nil {
+			fc.unsupported("captures: %v", err)
+			continue
+		}
+		fc.fact(t.S)
 	}
 	// axioms the contract opts into (assumed; listed in the trusted base)
 	for _, an := range strings.Fields(c.Opts["axioms"]) {
